@@ -463,7 +463,8 @@ def run(ctx):
         args.append((subseed(ctx.seed, PID, "c3", w), n3 // 4, "c3"))
     for w in range(4):
         args.append((subseed(ctx.seed, PID, "ir", w), ni // 4, "ir"))
-    ctx.pmap(_worker, args)
+    if not fuzz.only(ctx):
+        ctx.pmap(_worker, args)
     if not ctx.quick:
         fuzz_layer(ctx)
 
@@ -473,8 +474,11 @@ def run(ctx):
 
 FUZZ_TARGET = "C28.cfront"
 FUZZ_RUNS = 30000  # (one c_to_ir call under coverage instrumentation costs 10-100 ms)
+# byte-level mutations only; one or two per execution (libFuzzer's default of up to 5 stacked mutations leaves < 2 % of the
+# mutants of a C unit compilable, so that the search never gets past the parser)
+FUZZ_ARGS = ["-mutate_depth=2"]
 FUZZ_DICT = [w.encode() for w in sorted(cfeat.KEYWORDS_OK)] + [b"<<=", b">>=", b"++", b"--", b"<<", b">>", b"<=", b">=", b"==", b"!=", b"&&", b"||",
-             b"+=", b"-=", b"*=", b"/=", b"%=", b"&=", b"|=", b"^=", b" = { ", b" };\n", b"0x", b"ull", b"UL", b"'a'", b"\"ab\"", b"1.5", b"1e3",
+             b"+=", b"-=", b"*=", b"/=", b"%=", b"&=", b"|=", b"^=", b" = { ", b" };\n", b"0x", b"u", b"l", b"ul", b"lu", b"ll", b"ull", b"llu", b"U", b"L", b"UL", b"LU", b"LL", b"ULL", b"LLU", b"'a'", b"'\\n'", b"'\\0'", b"\"ab\"", b"1.5", b"1e3",
              b"[2]", b"[0] = ", b".m1 = ", b": 3;", b"case 1: ;", b"default: ;", b"int g1", b"int f1(void) {", b"return 0;"]  # fmt: skip
 
 
@@ -551,7 +555,7 @@ def fuzz_layer(ctx):
     try:
         info = {}
         fails = fuzz.campaign(FUZZ_TARGET, fuzz_cfront, fuzz_seeds(ctx.seed), fuzz.runs(FUZZ_RUNS), subseed(ctx.seed, PID, "fuzz"),
-                              ctx.tmpdir(), dictionary=FUZZ_DICT, info=info)  # fmt: skip
+                              ctx.tmpdir(), dictionary=FUZZ_DICT, info=info, libfuzzer_args=FUZZ_ARGS)  # fmt: skip
     except ImportError:
         ctx.stats.notes.append("atheris unavailable")
         return
